@@ -3,9 +3,9 @@ package main
 import (
 	"errors"
 
+	"fmt"
 	"github.com/antonmedv/expr"
 	"github.com/antonmedv/expr/file"
-	"fmt"
 	"strconv"
 	"strings"
 )
@@ -280,11 +280,11 @@ type Env struct {
 	// O2 is deep-equal to O. Whether it is the SAME pointer as O or a distinct
 	// equal object is not part of the environment's value (two deep-equal
 	// environments may differ in that); see AliasO2.
-	O2 *Obj
-	On *Obj // usually nil
-	Any        interface{}
-	Fn         func(int) int
-	Objs       []*Obj
+	O2   *Obj
+	On   *Obj // usually nil
+	Any  interface{}
+	Fn   func(int) int
+	Objs []*Obj
 	// Ob2 holds a value of ANOTHER struct type that also prints as "main.Obj"
 	// (declared inside a function), with the same field names in another order.
 	Ob2 interface{}
@@ -292,6 +292,9 @@ type Env struct {
 	Pm *map[string]int
 	Mi map[interface{}]int
 	Av interface{}
+	// MI, MS: members of NAMED types whose kinds are int and string.
+	MI NamedInt
+	MS NamedStr
 	// EmbP is an embedded pointer that is nil: PromV is promoted from it.
 	*EmbP
 	// Lvl (float64) is declared BEFORE the embedded struct whose Lvl (int) it shadows.
@@ -482,6 +485,15 @@ func (e Env) An(a, b interface{}) int {
 	return small(r) + e.w.salt(idx)
 }
 
+// NamedInt and NamedStr are named types of kind int and string: rewrites that are
+// sound for int and string operands are not sound for them.
+type NamedInt int
+type NamedStr string
+
+// C8 takes an int8: integer literals (and arithmetic on them) in its argument
+// position denote int8 values. Pure, not journalled.
+func (e Env) C8(x int8) int8 { return x }
+
 // OpS and OpI overload an arithmetic operator for two strings / two ints (C02
 // probes with literal operands: the overload, not the built-in meaning, is what
 // both the optimised and the unoptimised program must compute). Pure, not journalled.
@@ -630,6 +642,7 @@ func BuildEnv(w *World, d *EnvData) *Env {
 	// Mi: one number under keys of several widths (and a string key); Av: a struct
 	// VALUE behind interface{} that holds pointers (a failing operation on it must
 	// not put their addresses into its error).
+	e.MI, e.MS = NamedInt(2), NamedStr("a")
 	e.Mi = map[interface{}]int{int8(7): 1, int64(7): 2, float64(7): 3, uint8(7): 4, "k": 5}
 	if e.O != nil {
 		e.Av = *e.O
@@ -700,7 +713,7 @@ func (e *Env) AsRep(rep string) interface{} {
 			"P": e.P, "Q": e.Q, "S": e.S, "T": e.T, "Re": e.Re,
 			"Xs": e.Xs, "Ys": e.Ys, "Ss": e.Ss, "Mp": e.Mp, "O": e.O, "On": e.On, "Any": e.Any,
 			"Fn": e.Fn, "Objs": e.Objs,
-			"CP": e.CP, "CN": e.CN, "O2": e.O2, "Ob2": e.Ob2, "Nest": e.Nest, "Pm": e.Pm, "Mi": e.Mi, "Av": e.Av, "Lvl": e.Lvl, "EmbV": e.EmbV, "Info": e.Info, "Index": e.Index, "info": e.Info, "index": e.Index, "CL": e.CL, "Tup": e.Tup, "PtrM": e.PtrM,
+			"CP": e.CP, "CN": e.CN, "O2": e.O2, "Ob2": e.Ob2, "Nest": e.Nest, "Pm": e.Pm, "Mi": e.Mi, "Av": e.Av, "MI": e.MI, "MS": e.MS, "C8": e.C8, "Lvl": e.Lvl, "EmbV": e.EmbV, "Info": e.Info, "Index": e.Index, "info": e.Info, "index": e.Index, "CL": e.CL, "Tup": e.Tup, "PtrM": e.PtrM,
 			"U8": e.U8, "U16": e.U16, "I8": e.I8, "I64": e.I64, "F64": e.F64, "F32": e.F32, "Ff": e.Ff,
 			"F1": e.F1, "F2": e.F2, "G0": e.G0, "P1": e.P1, "S1": e.S1, "Mk": e.Mk, "Va": e.Va,
 			"An": e.An, "OpA": e.OpA, "OpB": e.OpB, "OpS": e.OpS, "OpI": e.OpI, "C64": e.C64, "CI": e.CI, "CS": e.CS, "CB": e.CB,
